@@ -48,6 +48,19 @@ def gen(part, tier, nrand, workers):
     return r
 
 
+def fault_sig(f):
+    """<asan-kind>:<frame>; for a stack overflow the top frame is arbitrary, so the frame is the function
+    that recurses (the most frequent carquet frame of the report)"""
+    if f.kind == "stack-overflow":
+        fr = {}
+        for fm in common._re_frame.finditer(getattr(f, "stderr", "")):
+            if "/src/" in fm.group(2):
+                fr[fm.group(1)] = fr.get(fm.group(1), 0) + 1
+        if fr:
+            return "stack-overflow:" + max(sorted(fr), key=lambda k: fr[k])
+    return f.signature()
+
+
 def mutant_bytes(base, cls, pos, arg):
     """mirror of MC_ThriftFuzz!MutantsAt, used only to report the input of a fault"""
     b = list(base)
@@ -150,7 +163,7 @@ def run_part(chk, tier):
                 rep["input_hex"] = hexs(mutant_bytes(m["base"], *loc))
         elif "bytes" in m:
             rep["input_hex"] = hexs(m["bytes"])
-        chk.violation("c08:thrift:%s:%s" % (m["entry"], f.signature()),
+        chk.violation("c08:thrift:%s:%s" % (m["entry"], fault_sig(f)),
                       "%s on %s input (%s)" % (f.signature(), m["entry"], m["what"]), rep)
     for cid in leaky:
         m = meta.get(cid, {"entry": "?", "what": "?"})
